@@ -61,6 +61,7 @@ class State(object):
         s.depth = self.depth
         s.globals = dict(self.globals)
         s.events = list(self.events)
+        s.feas_mark = getattr(self, 'feas_mark', -1)
         return s
 
     def assume(self, t):
@@ -167,8 +168,12 @@ class Engine(object):
         self.result_value = None
         self.exc_value = None
         self.max_paths = int(os.environ.get('PYVC_MAX_PATHS', '4000'))
-        from . import models
+        from . import models, models_run  # noqa: models_run registers the oracles used by DocTest.run
         models.install(self)
+        try:
+            models_run.install_repo_models(self)
+        except ImportError:
+            pass
 
     # ---- obligations ----------------------------------------------------
     def oblige(self, kind, name, st, goal, node=None, note='', expect='unsat'):
@@ -246,20 +251,32 @@ class Engine(object):
 
     # ---- feasibility ----------------------------------------------------
     def feasible(self, st, extra=None):
+        if (extra is None or (extra.lit is not None and extra.lit[1])) and getattr(st, 'feas_mark', -1) == len(st.pc):
+            return True         # nothing was assumed since the last successful check of this path
+        r = self._feasible(st, extra)
+        if r and extra is None:
+            st.feas_mark = len(st.pc)
+        return r
+
+    def _feasible(self, st, extra=None):
         hyps = st.pc + ([extra] if extra is not None else [])
         for h in hyps:
             if h.lit is not None and not h.lit[1]:
                 return False
         if os.environ.get('PYVC_NOPRUNE'):
             return True
-        # only the cheap core facts are used for pruning (no quantified alts)
+        # only the cheap core facts are used for pruning (no quantified alts, no quantified hypotheses:
+        # dropping hypotheses can only make pruning weaker, never unsound)
+        hyps = [h for h in hyps if '(forall ' not in h.s and '(exists ' not in h.s]
         key = '\n'.join(sorted(set(h.s for h in hyps)))
         r = self.sat_cache.get(key)
         if r is None:
             from . import solve
-            text = smt.build_query(self.ctx, hyps, None, fuel=0)
+            text = smt.build_query(self.ctx, hyps, None, fuel=0, with_axioms=False)
             self.stats['sat_checks'] += 1
-            r = solve.quick_sat(text, 400)
+            r = solve.quick_sat(text, int(os.environ.get('PYVC_PRUNE_MS', '15')))
+            if os.environ.get('PYVC_PROGRESS') and self.stats['sat_checks'] % 200 == 0:
+                print('progress: %d feasibility checks, %d pruned, %d obligations' % (self.stats['sat_checks'], self.stats['pruned'], len(self.obligations)), flush=True)
             self.sat_cache[key] = r
         if r == 'unsat':
             self.stats['pruned'] += 1
@@ -272,18 +289,31 @@ class Engine(object):
             return [(cond.lit[1], st)]
         out = []
         ncond = Not(cond)
+        # syntactic fast path: the condition (or its negation) is already a conjunct of the path condition
+        atoms = getattr(st, '_atoms', None)
+        if atoms is None or atoms[0] != len(st.pc):
+            atoms = (len(st.pc), set(h.s for h in st.pc))
+            st._atoms = atoms
+        if cond.s in atoms[1]:
+            return [(True, st)]
+        if ncond.s in atoms[1]:
+            return [(False, st)]
         t_ok = self.feasible(st, cond)
         f_ok = self.feasible(st, ncond)
         if t_ok and f_ok:
             s1, s2 = st, st.copy()
             s1.assume(cond)
             s2.assume(ncond)
+            s1.feas_mark = len(s1.pc)
+            s2.feas_mark = len(s2.pc)
             return [(True, s1), (False, s2)]
         if t_ok:
             st.assume(cond)
+            st.feas_mark = len(st.pc)
             return [(True, st)]
         if f_ok:
             st.assume(ncond)
+            st.feas_mark = len(st.pc)
             return [(False, st)]
         return []
 
@@ -359,9 +389,11 @@ class Engine(object):
             if fields is None:
                 raise Undecided('no record declaration for class %s' % ty[1])
             vals = {}
+            overrides = self.cur_contract.opts.get('entry_types', {}) if self.cur_contract is not None else {}
             for f, fty in fields.items():
-                fty_p = parse_type(fty)
                 fkey = '%s.%s' % (ty[1], f)
+                # a contract may widen the entry type of a field it does not read (e.g. to an opaque Optional[Val])
+                fty_p = parse_type(overrides.get(fkey, fty))
                 choice = self.union_choice.get(fkey) if fty_p[0] == 'union' else None
                 if fty_p[0] == 'union':
                     if choice is None:
@@ -394,7 +426,7 @@ class Engine(object):
         if k == 'logger':
             from . import models
             return VPy(models.NOOP_CALLABLE)
-        if k == 'opt':
+        if k in ('opt', 'optsym'):
             return VOptSym(self.ctx.fresh(base + '_isnone', BOOL), self.fresh(ty[1], base, st, ukey))
         if k == 'dict':
             raise Undecided('fresh dict must be built by the contract (use record/initial state)')
@@ -488,6 +520,11 @@ class Engine(object):
     def v_ite(self, c, a, b, st):
         if c.lit is not None:
             return a if c.lit[1] else b
+        # `v if x is None else x` / `x if x is not None else v`: the Optional is not None in its own branch
+        if isinstance(b, VOptSym) and c.s == b.isnone.s:
+            b = b.val
+        if isinstance(a, VOptSym) and c.s == Not(a.isnone).s:
+            a = a.val
         if type(a) is type(b) and isinstance(a, (VInt, VBool, VStr, VVal)):
             return type(a)(Ite(c, a.t, b.t))
         if isinstance(a, VTuple) and isinstance(b, VTuple) and len(a.items) == len(b.items):
@@ -602,6 +639,9 @@ class Engine(object):
             return BoolV(a.obj is b.obj)
         if isinstance(a, VVal) and isinstance(b, VVal):
             return Eq(a.t, b.t)
+        if isinstance(a, VVal) and isinstance(b, VRef) or isinstance(b, VVal) and isinstance(a, VRef):
+            vv, rr = (a, b) if isinstance(a, VVal) else (b, a)
+            return Eq(vv.t, self.obj_val(rr.loc))
         if isinstance(a, VVal) and isinstance(b, VPy) or isinstance(b, VVal) and isinstance(a, VPy):
             vv, pp = (a, b) if isinstance(a, VVal) else (b, a)
             return Eq(vv.t, self.val_const(pp.obj))
@@ -612,6 +652,17 @@ class Engine(object):
         if type(a) is not type(b):
             return FALSE
         raise Undecided('is between %r and %r' % (a, b))
+
+    def obj_val(self, loc):
+        """The Val that denotes the heap object at ``loc`` (identity): py_obj is injective."""
+        self.ctx.sort('Val')
+        if 'py_obj' not in self.ctx.funs:
+            self.ctx.fun('py_obj', [INT], 'Val')
+            a = smt.bound(self.ctx, 'a', INT)
+            b = smt.bound(self.ctx, 'b', INT)
+            self.ctx.fun_axioms.setdefault('py_obj', []).append(
+                smt.ForAll([a, b], Implies(Eq(self.ctx.app('py_obj', a), self.ctx.app('py_obj', b)), Eq(a, b))))
+        return self.ctx.app('py_obj', IntV(loc))
 
     def val_const(self, obj):
         """A distinguished constant of sort Val for a concrete Python singleton."""
@@ -833,6 +884,9 @@ class Engine(object):
                          ast.LShift: operator.lshift, ast.RShift: operator.rshift, ast.BitXor: operator.xor}
                 if type(op) in table:
                     return [(VInt(IntV(table[type(op)](a.t.lit[1], b.t.lit[1]))), st)]
+            if isinstance(op, (ast.BitAnd, ast.BitOr, ast.BitXor)):
+                # bit operations on symbolic ints: uninterpreted (only equalities between such terms are used)
+                return [(VInt(self.model_app('py_' + type(op).__name__.lower(), [a.t, b.t], INT)), st)]
         if isinstance(a, VVal) and isinstance(b, VVal) and isinstance(op, (ast.Add, ast.Sub, ast.Mult, ast.Div)):
             # arithmetic on opaque numbers (timings): an opaque number
             self.ctx.sort('Val')
@@ -1082,6 +1136,15 @@ class Engine(object):
         return idx, inrange
 
     def do_index(self, base, idx, st, node=None):
+        from .executor import VRecList
+        if isinstance(base, VRecList) and isinstance(idx, VInt):
+            i = idx.t
+            k = i if (self.pure or (i.lit is not None and i.lit[1] >= 0)) else Ite(Lt(i, IntV(0)), Add(i, base.n), i)
+            inr = And(Ge(i, smt.Neg(base.n)), Lt(i, base.n))
+            out = []
+            for r, s in self._safe_result(inr, NONE, IndexError, st, node):
+                out.append((r, s) if isinstance(r, Raised) else (self.rec_element(base, k, s), s))
+            return out
         if isinstance(base, VOptSym):
             if self.pure:
                 base = base.val     # spec level: an Optional stands for its value (None excluded by a guard)
@@ -1303,7 +1366,7 @@ class Engine(object):
             if isinstance(o, HInst):
                 if name in o.fields:
                     return [(o.fields[name], st)]
-                if o.cls in C.DICT_RECORDS:
+                if o.cls in C.DICT_RECORDS or ('%s.%s' % (o.cls, name)) in self.method_models:
                     return [(VBound(v, name), st)]
                 return self.instance_attr(v, o, name, st, node)
             return [(VBound(v, name), st)]
@@ -1314,6 +1377,9 @@ class Engine(object):
                 return [(v.attrs[name], st)]
             if name == '__class__':
                 return [(VPy(v.cls), st)]
+            if name == 'orig_ex':
+                # ExtractGotReprException.orig_ex: the exception the repr raised (some Exception instance)
+                return [(VExc(Exception, {}, tag='orig_ex'), st)]
             raise Undecided('attribute %s of exception' % name, node)
         if isinstance(v, VNone):
             return self._safe_result(FALSE, NONE, AttributeError, st, node)
